@@ -80,6 +80,9 @@ func ops() []opT {
 		{"create s (other type)", func(ctx context.Context, st state.State) error {
 			return st.Create(ctx, conformance.NewStrResource(hx.NS, "s", strings.Repeat("payload-", 1200))) // > 2 pages: multi-page write
 		}},
+		{"destroy b", func(ctx context.Context, st state.State) error {
+			return st.Destroy(ctx, hx.IntPtr("b"))
+		}},
 		{"update a (freshly built object carrying only version and owner)", func(ctx context.Context, st state.State) error {
 			cur, err := getInt(ctx, st, "a")
 			if err != nil {
@@ -806,7 +809,7 @@ func build(tier string) []explore.Scenario {
 			out = append(out, firstUseScenario(a, b, fb))
 		}
 	}
-	hists := [][]int{{0, 1, 2, 3}, {0, 4, 2, 3}, {4, 0, 3, 0}, {0, 1, 4, 5}, {5, 0, 2, 4}, {0, 3, 0, 1}, {0, 6, 1, 6}}
+	hists := [][]int{{0, 1, 2, 3}, {0, 4, 2, 3}, {4, 0, 3, 0}, {0, 1, 4, 5}, {5, 0, 2, 4}, {0, 3, 0, 1}, {0, 7, 1, 7}, {0, 4, 6, 1}, {4, 0, 6, 4}}
 	if tier == "thorough" {
 		hists = nil
 		var rec func(h []int)
@@ -818,7 +821,7 @@ func build(tier string) []explore.Scenario {
 			if len(h) == 4 {
 				return
 			}
-			for o := 0; o < 7; o++ {
+			for o := 0; o < 8; o++ {
 				if valid(append(append([]int{}, h...), o)) {
 					rec(append(h, o))
 				}
@@ -872,10 +875,15 @@ func valid(h []int) bool {
 				return false
 			}
 			b = true
-		case 6:
+		case 7:
 			if !a {
 				return false
 			}
+		case 6:
+			if !b {
+				return false
+			}
+			b = false
 		case 5:
 			if s {
 				return false
